@@ -56,6 +56,21 @@ func matchKnown(kfs []KnownFinding, prop, obl string) *KnownFinding {
 	return nil
 }
 
+// matchKnownBounded: a known finding of a bounded stand-in is identified by the check name and a trigger
+// substring of the violation text (the specific input that fails).
+func matchKnownBounded(kfs []KnownFinding, prop, check, violation string) *KnownFinding {
+	for i := range kfs {
+		k := &kfs[i]
+		if k.Status != "open" || (k.Property != prop && k.Property != "*") {
+			continue
+		}
+		if k.Obligation == "bounded:"+check && k.Trigger != "" && strings.Contains(violation, k.Trigger) {
+			return k
+		}
+	}
+	return nil
+}
+
 type sampleObl struct {
 	Name   string `json:"name"`
 	Kind   string `json:"kind"`
@@ -285,6 +300,42 @@ func cmdCheck(args []string) {
 	for _, l := range lines {
 		fmt.Println(l)
 	}
+	// bounded stand-ins for the parts no contract can reach (labelled bounded, never counted as proved)
+	bounded, problems := runBounded(*repo, *verif, *prop, *tier)
+	for _, pr := range problems {
+		fmt.Printf("UNDECIDED property=%s reason=%s\n", *prop, firstLine(pr))
+		pp.Undecided = append(pp.Undecided, pr)
+	}
+	bEvals, bDistinct := 0, 0
+	var bSamples []string
+	var bRules []string
+	for _, b := range bounded {
+		bEvals += b.Evaluations
+		bDistinct += b.Distinct
+		bSamples = append(bSamples, b.Samples...)
+		if b.Rule != "" {
+			bRules = append(bRules, b.Check+": "+b.Rule+" [bound: "+b.Bound+"]")
+		}
+		for _, v := range b.Violations {
+			if k := matchKnownBounded(kfs, *prop, b.Check, v); k != nil {
+				fmt.Printf("KNOWN-FINDING: property=%s %s [bounded:%s]\n", *prop, k.What, b.Check)
+				pp.Known = append(pp.Known, "bounded:"+b.Check+": "+v)
+				continue
+			}
+			pp.Violations++
+			path := filepath.Join(*verif, "replays", *prop+"_bounded_"+sanitize(b.Check)+fmt.Sprintf("_%d.json", pp.Violations))
+			os.MkdirAll(filepath.Dir(path), 0o755)
+			rf := map[string]any{"property": *prop, "obligation": "bounded:" + b.Check, "kind": "bounded stand-in", "failing_input": v,
+				"real_code_outcome": "the check ran on the real code of /repo (in-package test injected with go test -overlay) and observed this failure",
+				"replayed_on_real_code": true, "bound": b.Bound, "how_to_replay": "cd /verif && ./check " + *prop + " " + *tier + "   (the bounded stand-in is deterministic)"}
+			rb, _ := json.MarshalIndent(rf, "", "  ")
+			os.WriteFile(path, rb, 0o644)
+			fmt.Printf("VIOLATION property=%s replay=%s obligation=bounded:%s\n", *prop, path, b.Check)
+			if pp.Violations > 20 {
+				break
+			}
+		}
+	}
 	// baseline comparison (vacuity guard iii)
 	baseline := map[string]int{}
 	if b, err := os.ReadFile(filepath.Join(*verif, "baseline_obligations.json")); err == nil {
@@ -322,8 +373,19 @@ func cmdCheck(args []string) {
 			}
 		}
 	}
+	if len(bounded) > 0 {
+		cov["bounded_standins"] = bounded
+		cov["bounded_note"] = "bounded stand-ins are exhaustive within their stated bound and are NOT counted as proved; they run the real code of /repo through in-package tests injected with go test -overlay"
+	}
 	if *level != "proof" {
-		cov["explanation"] = "contract obligations discharged by SMT for the functions listed; see level_note in MANIFEST.json"
+		cov["explanation"] = "contract obligations discharged by SMT for the functions listed (if any) plus bounded stand-ins; see level_note in MANIFEST.json"
+		cov["evaluations"] = bEvals
+		cov["distinct_nontrivial"] = bDistinct
+		cov["rule"] = strings.Join(bRules, " || ")
+		cov["exhaustive"] = true
+		if len(bSamples) > 0 {
+			cov["samples"] = bSamples
+		}
 	}
 	ev := map[string]any{
 		"property_id": *prop, "tier": *tier, "seed": seedFromEnv(), "level": *level,
